@@ -323,7 +323,7 @@ var c02Scalars = []scalarField{
 	{"rpm.group", func(c *model.MetaCfg, v string) { c.RPMGroup = v }},
 	{"rpm.summary", func(c *model.MetaCfg, v string) { c.RPMSummary = v }},
 	{"rpm.packager", func(c *model.MetaCfg, v string) { c.RPMPackager = v }},
-	{"rpm.buildhost", func(c *model.MetaCfg, v string) { c.RPMBuildHost = strings.ReplaceAll(v, " ", "-") }},
+	{"rpm.buildhost", func(c *model.MetaCfg, v string) { c.RPMBuildHost = strings.ReplaceAll(v, " ", "-") + ".ci.example.org" }},
 	{"archlinux.pkgbase", func(c *model.MetaCfg, v string) { c.ArchPkgbase = v }},
 	{"archlinux.packager", func(c *model.MetaCfg, v string) { c.ArchPackager = v }},
 	{"ipk.abi_version", func(c *model.MetaCfg, v string) { c.IPKABI = v }},
@@ -572,6 +572,10 @@ func enumC02(env *engine.Env, yield func(any) bool) {
 		func(c *model.MetaCfg) { c.RPMPrefixes = []string{"/usr", "/opt/app"} },
 		func(c *model.MetaCfg) {
 			c.IPKAlts = []model.IPKAlt{{Priority: 10, Target: "/usr/bin/app", LinkName: "/usr/bin/a"}, {Priority: 20, Target: "/usr/bin/app2", LinkName: "/usr/bin/b"}}
+		},
+		// the lowest priority there is, a negative one, one link name offered twice
+		func(c *model.MetaCfg) {
+			c.IPKAlts = []model.IPKAlt{{Priority: 0, Target: "/usr/bin/app", LinkName: "/usr/bin/zero"}, {Priority: 100, Target: "/usr/bin/app2", LinkName: "/usr/bin/zero"}, {Priority: 1, Target: "/usr/bin/app", LinkName: "/usr/bin/one"}}
 		},
 		func(c *model.MetaCfg) { c.IPKTags = []string{"tag1", "tag2"} },
 		func(c *model.MetaCfg) { c.IPKEssential = true },
@@ -923,7 +927,11 @@ func judgeMeta(env *engine.Env, f string, c model.MetaCfg, pkg *pkgread.Pkg, tab
 		if wantPackager != "" {
 			eq("scalar-packager", "Packager", wantPackager)
 		}
-		for k, v := range map[string]string{"Group": c.RPMGroup, "BuildHost": c.RPMBuildHost} {
+		wantHost := c.RPMBuildHost
+		if wantHost == "" {
+			wantHost = "buildhost.example" // what every document of this check configures when the case sets no other
+		}
+		for k, v := range map[string]string{"Group": c.RPMGroup, "BuildHost": wantHost} {
 			got, ok := pkg.Field(k)
 			switch {
 			case v != "" && got != v:
